@@ -365,7 +365,8 @@ func (p c17) checkStrace(c *fw.Ctx, cfg c17Cfg, root, file string, cs c17Case) {
 			continue
 		}
 		rel, _ := filepath.Rel(work, pth)
-		ok := !strings.Contains(rel, "/") && !strings.HasPrefix(rel, "..") && (rel == "grol.png" || (strings.HasSuffix(rel, ".gr") && c17Allowed(cfg, rel)))
+		ok := !strings.Contains(rel, "/") && !strings.HasPrefix(rel, "..") && (rel == "grol.png" ||
+			(strings.HasSuffix(rel, ".gr") && (c17Allowed(cfg, rel) || c17Allowed(cfg, strings.TrimSuffix(rel, ".gr")))))
 		if !ok {
 			c.Violate("syscall-outside", "io:syscall-outside:"+cfg.name, cs, "strace shows a write-type access outside the allowed set: "+clip(line))
 		}
